@@ -126,6 +126,27 @@ def ret_terms(g):
     return out
 
 
+def consume_write_ok(g, e):
+    """per-write obligations of a consuming write in an entry other than validate_message (an alias with another argument shape that
+    shares the private consume helper): Executed is written under key {X, Y} only behind `stored(key) == Approved(keccak(xdr(Message{
+    source_chain: X, message_id: Y, contract_address: A, ..})))` where A's authorisation must-guards the write"""
+    key = approval_key(e.key)
+    if key is None:
+        return False
+
+    def hp(h):
+        h = core(h)
+        if h[0] != 'keccak' or h[1][0] != 'xdr':
+            return False
+        f = msg_struct(h[1][1])
+        if not f or f['source_chain'] != key[0] or f['message_id'] != key[1]:
+            return False
+        an = auth_nodes(g, lambda s_: core(s_) == f['contract_address'])
+        return bool(an) and mg(g, [e.node], an)[0]
+    ok, _ = mg_all(g, [e.node], status_match(g, key, 'Approved', hp))
+    return ok
+
+
 def check(P, rep):
     c = P.crates[CN]
     # R1 who-may-write
@@ -142,8 +163,12 @@ def check(P, rep):
                     continue
                 writers += 1
                 shapes = set(variant_name(a) for a in alts(e.val))
-                rep.check(shapes <= {'Approved', 'Executed'} and (en in ('approve_messages', 'validate_message') or within_entry(g, e, ('approve_messages', 'validate_message'))), 'C02.R1',
-                          '%s:status-shape' % en, 'status write stores Approved(_) or Executed in an approving/consuming entry', esite(g, e), fmt(e.val)[:200])
+                where_ok = en in ('approve_messages', 'validate_message') or within_entry(g, e, ('approve_messages', 'validate_message')) \
+                    or (shapes == {'Executed'} and consume_write_ok(g, e))
+                rep.check(shapes <= {'Approved', 'Executed'} and where_ok, 'C02.R1',
+                          '%s:status-shape' % en, 'status write stores Approved(_) or Executed in an approving/consuming entry (another entry may consume when its '
+                          'write meets the consume obligations itself: key {chain, id}, stored == Approved(hash of a message with that chain and id whose '
+                          'contract_address authorised the call))', esite(g, e), fmt(e.val)[:200])
     rep.floor('MessageApproval writers', writers, 2)
     if writers:
         rep.ok('C02.R1', 'no remove/update of MessageApproval(_) reachable from any gateway entry (zero-expected rule; '
